@@ -27,7 +27,7 @@ func runC02(c *Ctx) {
 	rem := c.Anchor("O1", pkgNodeInfo, "NodeInfo", "removeSharedTaskResourcesPerPodGroup")
 	if add != nil && rem != nil {
 		tgt := func(t *Term) bool { return rootParam(t) == 0 }
-		ea, er := extractEffects(fx, add, tgt, statusArm, 1), extractEffects(fx, rem, tgt, statusArm, 1)
+		ea, er := extractEffects(fx, add, tgt, statusArm, 2), extractEffects(fx, rem, tgt, statusArm, 2)
 		mism := pairInverse(ea, er)
 		c.Check(len(mism) == 0, "O1", "PAIR", funcKey(add)+" <-> "+funcKey(rem), add.Pos(),
 			fmt.Sprintf("%d effects, inverted per status arm: %s", len(ea), trunc(effectsSummary(ea), 900)),
@@ -56,7 +56,7 @@ func runC02(c *Ctx) {
 			{defArm, "default", ".Idle", "-", true, "opening a group on a fresh device takes a whole GPU out of Idle"},
 			{relArm, "Releasing", ".Idle", "+", false, "a terminating sharer never returns a device to Idle while being added"},
 		} {
-			got := hasEffect(ea, e.arm, e.field, e.op)
+			got := hasEffectUnder(ea, e.arm, e.field, e.op)
 			c.Check(got == e.want, "O1", "PAIR", fmt.Sprintf("%s arm[%s] %s %s expected=%v", funcKey(add), e.name, e.field, e.op, e.want), add.Pos(), e.why,
 				fmt.Sprintf("arm table of the shared-GPU accounting deviates from the property: %s (found=%v)", e.why, got))
 		}
